@@ -395,6 +395,8 @@ func runC05(c *Ctx) {
 	// ---- R05.7
 	c.rule("R05.8", "during an outage every accepted request is answered: the accept arm is total for calls and notifications, and the connection-unusable path answers with the temporary error")
 	c.acceptArmRule("R05.8")
+	c.rule("R05.9", "the error table a client is given is installed as it is: the built-in code-to-type entry for the connection error (which NewErrors puts only in the code direction) is not lost to a rebuilt copy")
+	c.registryInstalledAsGiven("R05.9")
 	c.rule("R05.7", "every completion delivered to an id-bearing call carries that call's id")
 	c.completionIDs("R05.7")
 
@@ -646,4 +648,69 @@ func (c *Ctx) isInflightKey(o apath) bool {
 	}
 	rg, ok := nx.Iter.(*ssa.Range)
 	return ok && c.fieldVal(rg.X, c.R.FInflight)
+}
+
+// registryInstalledAsGiven: R05.9. NewErrors registers code -1111111 → *RPCConnectionError in the
+// code-to-type direction only; Register fills both directions. Whoever writes the code-to-type map
+// outside those two (a "private snapshot" rebuilt from the type-to-code direction) produces a table
+// without that entry: untagged calls during an outage then get the generic error instead of the typed
+// connection error. So the code-to-type map is written only by the registry's own constructor and
+// Register, or copied from another code-to-type map.
+func (c *Ctx) registryInstalledAsGiven(rule string) {
+	p := c.P
+	tn, ok := p.Root.Pkg.Scope().Lookup("Errors").(*types.TypeName)
+	if !ok {
+		c.und(rule, "error registry type", "-", "not found")
+		return
+	}
+	reg := p.SSA.LookupMethod(types.NewPointer(tn.Type()), p.Root.Pkg, "Register")
+	n := 0
+	for _, fn := range p.Funcs {
+		if pkgOf(fn) != p.Root.Pkg {
+			continue
+		}
+		allInstrsRaw(fn, func(in ssa.Instruction) {
+			mu, ok := in.(*ssa.MapUpdate)
+			if !ok {
+				return
+			}
+			mt, ok := mu.Map.Type().Underlying().(*types.Map)
+			if !ok || !isNamed(mt.Elem(), "reflect", "Type") {
+				return
+			}
+			if _, isBasic := mt.Key().Underlying().(*types.Basic); !isBasic {
+				return
+			}
+			n++
+			construct := fmt.Sprintf("%s: write into the code-to-type direction of the error registry", fname(fn))
+			// allowed writers: Register itself, and functions that return a registry (the constructor)
+			if fn == reg || p.unbound(fn) == reg {
+				c.ok(rule, construct, c.ipos(mu), "Register")
+				return
+			}
+			res := outermost(fn).Signature.Results()
+			if res.Len() == 1 && res.At(0).Type() == tn.Type() {
+				c.ok(rule, construct, c.ipos(mu), "the registry's constructor")
+				return
+			}
+			// a copy from another code-to-type map: the stored type comes out of a lookup/range of such a map
+			copied := c.dependsOn(mu.Value, func(v ssa.Value) bool {
+				switch x := v.(type) {
+				case *ssa.Lookup:
+					m, ok := x.X.Type().Underlying().(*types.Map)
+					return ok && isNamed(m.Elem(), "reflect", "Type")
+				case *ssa.Next:
+					if rg, ok := x.Iter.(*ssa.Range); ok {
+						m, ok := rg.X.Type().Underlying().(*types.Map)
+						return ok && isNamed(m.Elem(), "reflect", "Type")
+					}
+				}
+				return false
+			}, 0, map[ssa.Value]bool{})
+			c.check(copied, rule, construct, c.ipos(mu), "copied from another code-to-type map", "the code-to-type direction of an error table is rebuilt from something else than an existing code-to-type map (e.g. from the type-to-code direction): the built-in entry for the connection error, which exists only in the code direction, is lost, and callers get the generic error instead of *RPCConnectionError during an outage")
+		})
+	}
+	if n == 0 {
+		c.und(rule, "code-to-type writes", "-", "none found")
+	}
 }
